@@ -179,7 +179,7 @@ def oracle(case, out):
         t = base_op(op.split(" -> ")[0]).split()
         if o == "skipped" or o == "bad-op":
             break
-        if o == "busy":
+        if o == "busy" or M.is_aux(op):
             continue
         if t[0] == "facade":
             if o == "ok":
